@@ -153,13 +153,18 @@ CHECKS = [
  {"id": "C13",
   "text": "Coq theorems for the logic Coq can carry: the $-substitution scanner mirror meets its tokenisation spec for ALL action texts "
           "(never panics), the wrapper's argument unpacking = map over the production's symbols ($k denotes the k-th, Ok iff not faulty), "
-          "flag regeneration = default filling. The equivalence of the two pipelines (compile-time module vs run-time build) is decided by "
-          "execution per generated program: generate, include!, compile once with rustc, run, and compare lexemes, values, errors and "
-          "repair sets with the run-time pipeline and with the model's predictions.",
+          "flag regeneration = default filling. PIPELINE: the generated parser module is modelled as {format, encode g, encode t, recovery kind, "
+          "entry point} whose parse() reconstitutes both constants (C14's codec) and calls the run-time parser, any function of the decoded "
+          "values: C13_ct_equals_rt proves the generated parse() returns exactly the run-time call on the built objects for both formats and "
+          "every width (ct_lexerdef_equals_rt for the generated lexerdef()); the facts about the generated TEXT this model assumes are checked "
+          "statically on every generated module (data constants used only in the two _reconstitute arms with the arm's encoding, configured "
+          "format and recoverer, entry point of the yacc kind, embedded bytes = serialisation of the run-time-built objects, one lex_flags). "
+          "In addition the equivalence is decided by execution per generated program: generate, include!, compile once with rustc, run, and "
+          "compare lexemes, values, errors and repair sets with the run-time pipeline and with the model's predictions.",
   "design_ref": "DESIGN.md §5 C13",
   "category": "proof",
   "note": _TB + "rustc, quote!/prettyplease and the generated text are outside the model: pipeline equivalence is translation validation by compile-and-run (partial).",
-  "technique": "Coq proof of the scanner/wrapper/flag models + compile-and-run differential of generated modules against the run-time pipeline"},
+  "technique": "Coq proof (scanner/wrapper/flag models; compile-time pipeline = run-time pipeline over the verified codec) + static check of the generated module text + compile-and-run differential against the run-time pipeline"},
  {"id": "C14",
   "text": "Coq theorems: codec_roundtrip for ALL schemas/values/configurations (fixint and varint), decode soundness, canonicity (fixint; "
           "varint refuted as in wincode, minimal-preimage variant proved), and reconstitute never fails on the schemas GENERATED from the "
@@ -197,10 +202,14 @@ CHECKS = [
           "that fits (exactness); the pinned guards are refuted at the 2^w boundary classes (repaired); state-count guards and the lexer "
           "rule-id guard characterised exactly. Tie: generated grammars and lexers with counts at 2^8-6..2^8+1 (and 2^16) built with "
           "u8/u16/u32 in release and debug: refusal class, which guard refuses and every reported size vs the mirror, and transcripts "
-          "(canonically renumbered) equal across accepting widths.",
+          "(canonically renumbered) equal across accepting widths. TABLE/PARSE level: in C01's from_yacc_mirror a width is exactly the bound "
+          "max_st plus the hash-order oracles; proved for all grammars: the narrow run is a StorageT refusal or EQUALS the wide run under the "
+          "same oracles (construction_bound_only_refuses, refusal_is_storage_check, construction_sizes_fit) and, for LR(1) grammars or "
+          "conflict-free reports, any two successful runs with arbitrary bounds and oracles give the same tree or first-error position on "
+          "EVERY input (parse_results_width_independent); with resolved conflicts both are sound, equality remains differential.",
   "design_ref": "DESIGN.md §5 C20",
   "note": _TB + "equality of table contents and parse results across widths is carried by the differential run, not by a theorem (partial).",
-  "technique": "Coq proof (modular-arithmetic model of the width guards) + boundary-configuration differential across storage widths"},
+  "technique": "Coq proof (modular-arithmetic model of the width guards; width independence of the mirrored table construction and of parse results) + boundary-configuration and merge-family differential across storage widths"},
  {"id": "C05",
   "text": "Coq theorems on the repair-sequence semantics (mirror of lr_upto/lr_cactus/apply_repairs over the LR interpreter) for ALL tables, "
           "inputs and oracles: a valid repair makes the plain parse of the REPAIRED token string succeed over the next N lexemes or to "
